@@ -1154,6 +1154,65 @@ func c09Gcd(a, b int) int {
 	return a
 }
 
+// c09CrossOrder: the answer of one function on a pattern must not depend on which OTHER
+// function saw the same pattern text first (translations, placeholder lists and compiled
+// regexps may be cached, but per function).  Every pattern here is new to the process; the
+// expected values are immediate for these shapes (one placeholder "id" / two placeholders).
+func c09CrossOrder(c *Ctx) {
+	n := 60
+	if c.Thorough() {
+		n = 2000
+	}
+	type call struct {
+		fn, path, pat, name string
+		want                string
+	}
+	for k := 0; k < n; k++ {
+		u := fmt.Sprintf("co%d", k)
+		colon := "/" + u + "/:id/x/:k"
+		brace := "/" + u + "/{id}/x/{k}"
+		path := "/" + u + "/alice/x/7"
+		orders := [][]call{
+			// the {}-functions see the :name text first (placeholders are literals to them)
+			{{"kg3", path, colon, "id", ""}, {"km3", path, colon, "", "false"}, {"km4", path, colon, "", "false"}, {"km5", path, colon, "", "false"},
+				{"km2", path, colon, "", "true"}, {"kg2", path, colon, "id", "alice"}, {"kg2", path, colon, "k", "7"}, {"kg3", path, colon, "id", ""}},
+			// the :name functions see the {name} text first
+			{{"kg2", path, brace, "id", ""}, {"km2", path, brace, "", "false"},
+				{"km3", path, brace, "", "true"}, {"kg3", path, brace, "id", "alice"}, {"kg3", path, brace, "k", "7"}, {"km4", path, brace, "", "true"}, {"km5", path, brace, "", "true"}, {"kg2", path, brace, "id", ""}},
+		}
+		ord := orders[k%2]
+		if k%4 >= 2 { // and the proper function first, the foreign ones in between, the proper one again
+			ord = append(append([]call(nil), ord[len(ord)/2:]...), ord...)
+		}
+		for i, cl := range ord {
+			var got string
+			switch cl.fn {
+			case "kg2":
+				got = util.KeyGet2(cl.path, cl.pat, cl.name)
+			case "kg3":
+				got = util.KeyGet3(cl.path, cl.pat, cl.name)
+			case "km2":
+				got = fmt.Sprint(util.KeyMatch2(cl.path, cl.pat))
+			case "km3":
+				got = fmt.Sprint(util.KeyMatch3(cl.path, cl.pat))
+			case "km4":
+				got = fmt.Sprint(util.KeyMatch4(cl.path, cl.pat))
+			case "km5":
+				got = fmt.Sprint(util.KeyMatch5(cl.path, cl.pat))
+			}
+			if got != cl.want {
+				var prev []string
+				for _, p := range ord[:i] {
+					prev = append(prev, p.fn)
+				}
+				c.Direct(fmt.Sprintf("c09.crossorder.%d", k), fmt.Sprintf("%s(%q, %q, %q) = %q, expected %q, after the calls %v on the same pattern text: the answer depends on which function saw the pattern first", cl.fn, cl.path, cl.pat, cl.name, got, cl.want, prev), cl.pat)
+				break
+			}
+		}
+		c.Count("cross-function-order")
+	}
+}
+
 func init() {
 	register("C09", func(c *Ctx) {
 		if ph := os.Getenv(c09PhaseEnv); ph != "" {
@@ -1168,6 +1227,7 @@ func init() {
 		}
 		c.Exhaust = false
 		c.Rule = "grid (bounded-exhaustive): every pattern over segments {a, b, ab, empty, placeholder x, placeholder y} of up to 3 (thorough 4) segments, with and without trailing /*, x every path over {a, b, empty(, ab)} of up to 4 (thorough 5) segments plus query-string and no-leading-slash variants; each pattern is run through every function whose placeholder syntax makes it well-formed (KeyMatch2/KeyGet2 on the :name text, KeyMatch3/4/5/KeyGet3 on the {name} text, KeyMatch/KeyGet and KeyMatch3/4/5 on the texts where the other syntax' placeholders are literals), keyGet2/3 for every placeholder name and one absent name. hostile: random well-formed patterns with unusual literal bytes and arbitrary name bytes, paths obtained by instantiating the pattern and mutating it (arbitrary bytes incl. invalid UTF-8, no line feed); a small line-feed stream and the refuted-lemma witnesses are outside the theorem guards but the model is faithful there and they are compared too. func: the nine *Func wrappers with right/wrong arity and non-string arguments. ip: random IPv4 / IPv6 / IPv4-mapped networks and prefixes (boundary prefixes /0 /1 /31 /32 /95 /96 /97 /127 /128 and random), addresses derived from the network by randomising host bits and flipping one prefix bit, several text forms (::-compression, upper case, leading zeros, embedded IPv4), single addresses, malformed texts (fixed list and random one-byte edits). conc: a sample of all these calls repeated from 16 goroutines (warm regexp cache). cold (child process): 16 goroutines released together, 32 (thorough 200) rounds, each round every goroutine calls KeyGet2 / KeyGet3 / KeyMatch4 on fresh well-formed patterns nobody compiled before (12 shared by all goroutines in the same order + 20 private ones) mixed with patterns cached one round earlier, every result compared with the reference and (as single calls, justified by C09_cache_transparent) with the model; a Go runtime fatal error (concurrent map writes) or a child that does not finish is a violation. poison (child process): every call whose expanded pattern does not compile (unbalanced ( ) [, nested repetition, KeyMatch4 token-count panic, malformed IP text) is followed by 13 valid calls on cached and fresh patterns through all nine functions under a 5 s watchdog and by itself again (an error must not poison later calls), then 8 goroutines mix panicking and valid calls. Both child phases run once more in a binary built with go1.26.8 -race when that toolchain is installed (any reported data race is a violation). Non-trivial = a (view, path set) with at least one accepted path, or a well-formed (address, CIDR) pair."
+		c09CrossOrder(c) // first: these patterns must be unknown to every cache of the process
 		g.grid()
 		g.hostile(nHostile, false)
 		g.hostile(nHostile/20, true)
